@@ -192,3 +192,65 @@ package network
 //@     invariant forall k :: 0 <= k && k < s.biasNeuronCount ==> s.neuronSignals[k] == old(s.neuronSignals[k])
 //@     invariant forall k :: s.biasNeuronCount + i <= k && k < s.totalNeuronCount ==> s.neuronSignals[k] == old(s.neuronSignals[k])
 //@     invariant forall b :: b != base(s.neuronSignals) ==> Mem[float64][b] == old(Mem[float64][b])
+
+// ---- C12: what one activation sweep of the fast solver computes ----------------------------------------
+// insum(conns, k, t, SIG) = sum over the first k connections with target index t of signal[source] * weight.
+//@ ufunc insumTo((Array Int Int), Int, Int, Int, (Array Int Int), (Array Int Int), (Array Int Float), (Array Int Float), Int) Float
+//@ smtdef real: (define-fun-rec insumTo ((c (Array Int Int)) (o Int) (k Int) (t Int) (SRC (Array Int Int)) (TGT (Array Int Int)) (W (Array Int Real)) (SIG (Array Int Real)) (so Int)) Real (ite (<= k 0) 0.0 (+ (insumTo c o (- k 1) t SRC TGT W SIG so) (ite (= (select TGT (select c (+ o (- k 1)))) t) (* (select SIG (+ so (select SRC (select c (+ o (- k 1)))))) (select W (select c (+ o (- k 1))))) 0.0))))
+//@ pred connsWF(s *FastModularNetworkSolver) = forall i :: 0 <= i && i < len(s.connections) ==> s.connections[i] != nil && 0 <= s.connections[i].SourceIndex && s.connections[i].SourceIndex < s.totalNeuronCount && 0 <= s.connections[i].TargetIndex && s.connections[i].TargetIndex < s.totalNeuronCount
+// accTo(s, k, i): the scratch value of neuron i after the first k connections have been added; biasOf / preAct as in the code's comment.
+//@ spec accTo(s *FastModularNetworkSolver, k int, i int) real = old(s.neuronSignalsBeingProcessed[i]) + insumTo(arrOf(s.connections), off(s.connections), k, i, heapOf(FastNetworkLink.SourceIndex), heapOf(FastNetworkLink.TargetIndex), heapOf(FastNetworkLink.Weight), old(arrOf(s.neuronSignals)), off(s.neuronSignals))
+//@ spec biasOf(s *FastModularNetworkSolver, i int) real = s.biasNeuronCount > 0 ? s.biasList[i] : 0.0
+//@ spec preAct(s *FastModularNetworkSolver, i int) real = accTo(s, len(s.connections), i) + biasOf(s, i)
+//@ pred fixedParts(s *FastModularNetworkSolver) = (forall t :: 0 <= t && t < s.sensorNeuronCount ==> s.neuronSignals[t] == old(s.neuronSignals[t])) && (forall t :: 0 <= t && t < len(s.biasList) ==> s.biasList[t] == old(s.biasList[t]))
+//@ func (*FastModularNetworkSolver).forwardStep
+//@   props C12
+//@   requires s != nil && solverWF(s) && connsWF(s) && len(s.modules) == 0 && maxAllowedSignalDelta <= 0.0
+//@   requires len(s.activationFunctions) == s.totalNeuronCount && len(s.biasList) == s.totalNeuronCount && nmath.NodeActivators != nil
+//@   requires s.totalNeuronCount > 0 ==> base(s.biasList) != base(s.neuronSignals) && base(s.biasList) != base(s.neuronSignalsBeingProcessed)
+//@   modifies Mem[float64]
+//@   ensures [sweep] err == nil ==> (forall i :: s.sensorNeuronCount <= i && i < s.totalNeuronCount ==> s.neuronSignals[i] == actU(s.activationFunctions[i], preAct(s, i)))
+//@   ensures [scratchCleared] err == nil ==> (forall i :: s.sensorNeuronCount <= i && i < s.totalNeuronCount ==> s.neuronSignalsBeingProcessed[i] == 0.0)
+//@   ensures [sensorsKept] forall i :: 0 <= i && i < s.sensorNeuronCount ==> s.neuronSignals[i] == old(s.neuronSignals[i])
+//@   loop 1:
+//@     invariant -1 <= #idx && #idx < len(s.connections) && fixedParts(s)
+//@     invariant forall t :: 0 <= t && t < s.totalNeuronCount ==> s.neuronSignals[t] == old(s.neuronSignals[t])
+//@     invariant forall t :: 0 <= t && t < s.totalNeuronCount ==> s.neuronSignalsBeingProcessed[t] == accTo(s, #idx + 1, t)
+//@   loop 2:
+//@     invariant s.sensorNeuronCount <= i && i <= s.totalNeuronCount && fixedParts(s)
+//@     invariant forall t :: 0 <= t && t < s.totalNeuronCount ==> s.neuronSignals[t] == old(s.neuronSignals[t])
+//@     invariant forall t :: s.sensorNeuronCount <= t && t < i ==> s.neuronSignalsBeingProcessed[t] == actU(s.activationFunctions[t], preAct(s, t))
+//@     invariant forall t :: i <= t && t < s.totalNeuronCount ==> s.neuronSignalsBeingProcessed[t] == accTo(s, len(s.connections), t)
+//@   loop 3:
+//@     invariant -1 <= #idx && len(s.modules) == 0 && fixedParts(s)
+//@     invariant forall t :: 0 <= t && t < s.totalNeuronCount ==> s.neuronSignals[t] == old(s.neuronSignals[t])
+//@     invariant forall t :: s.sensorNeuronCount <= t && t < s.totalNeuronCount ==> s.neuronSignalsBeingProcessed[t] == actU(s.activationFunctions[t], preAct(s, t))
+//@   loop 4:
+//@     invariant len(s.modules) != 0
+//@   loop 5:
+//@     invariant len(s.modules) != 0
+//@   loop 6:
+//@     invariant s.sensorNeuronCount <= i && i <= s.totalNeuronCount && fixedParts(s)
+//@     invariant forall t :: s.sensorNeuronCount <= t && t < i ==> s.neuronSignals[t] == actU(s.activationFunctions[t], preAct(s, t))
+//@     invariant forall t :: s.sensorNeuronCount <= t && t < i ==> s.neuronSignalsBeingProcessed[t] == 0.0
+//@     invariant forall t :: i <= t && t < s.totalNeuronCount ==> s.neuronSignalsBeingProcessed[t] == actU(s.activationFunctions[t], preAct(s, t))
+//@   loop 7:
+//@     invariant maxAllowedSignalDelta > 0.0
+
+// Recursive activation: shape of the adjacency structures built by the constructor.
+//@ pred adjWF(s *FastModularNetworkSolver) = len(s.reverseAdjacentList) == s.totalNeuronCount && len(s.adjacentMatrix) == s.totalNeuronCount && len(s.activationFunctions) == s.totalNeuronCount && len(s.biasList) == s.totalNeuronCount && (forall n :: 0 <= n && n < s.totalNeuronCount ==> len(s.adjacentMatrix[n]) == s.totalNeuronCount && base(s.adjacentMatrix[n]) != base(s.neuronSignals) && base(s.adjacentMatrix[n]) != base(s.neuronSignalsBeingProcessed)) && (forall m :: 0 <= m && m < s.totalNeuronCount ==> (forall k :: 0 <= k && k < len(s.reverseAdjacentList[m]) ==> 0 <= s.reverseAdjacentList[m][k] && s.reverseAdjacentList[m][k] < s.totalNeuronCount)) && (s.totalNeuronCount > 0 ==> base(s.biasList) != base(s.neuronSignals) && base(s.biasList) != base(s.neuronSignalsBeingProcessed))
+//@ func (*FastModularNetworkSolver).recursiveActivateNode
+//@   props C12
+//@   requires s != nil && solverWF(s) && adjWF(s) && 0 <= currentNode && currentNode < s.totalNeuronCount && nmath.NodeActivators != nil
+//@   modifies Mem[float64], Mem[bool]
+//@   ensures [activation] res && err == nil && !old(s.activated[currentNode]) ==> s.neuronSignals[currentNode] == actU(s.activationFunctions[currentNode], s.neuronSignalsBeingProcessed[currentNode] + (s.biasNeuronCount > 0 ? s.biasList[currentNode] : 0.0))
+//@   ensures [done] res && err == nil ==> s.activated[currentNode] && !s.inActivation[currentNode]
+//@   ensures [stable] forall k :: 0 <= k && k < s.totalNeuronCount && old(s.activated[k]) ==> s.activated[k] && s.neuronSignals[k] == old(s.neuronSignals[k])
+//@   ensures [frame] forall b :: b != base(s.neuronSignals) && b != base(s.neuronSignalsBeingProcessed) ==> Mem[float64][b] == old(Mem[float64][b])
+//@   ensures [frameBool] forall b :: b != base(s.activated) && b != base(s.inActivation) ==> Mem[bool][b] == old(Mem[bool][b])
+//@   loop 1:
+//@     invariant 0 <= i && i <= len(s.reverseAdjacentList[currentNode]) && err == nil
+//@     invariant forall k :: 0 <= k && k < s.totalNeuronCount && old(s.activated[k]) ==> s.activated[k] && s.neuronSignals[k] == old(s.neuronSignals[k])
+//@     invariant forall b :: b != base(s.neuronSignals) && b != base(s.neuronSignalsBeingProcessed) ==> Mem[float64][b] == old(Mem[float64][b])
+//@     invariant forall b :: b != base(s.activated) && b != base(s.inActivation) ==> Mem[bool][b] == old(Mem[bool][b])
+//@     invariant !old(s.activated[currentNode])
